@@ -106,7 +106,7 @@ class SchedPlan:
 
     def __init__(self, tape, label, allow_faults=True, tier="quick"):
         self.mode = ["dask-core", "free-order"][tape.weighted([3, 1], f"{label}.mode")]
-        self.W = [1, 2, 3, 4, 8][tape.draw(5, f"{label}.W")]
+        self.W = [1, 2, 3, 4, 8, 16][tape.draw(6, f"{label}.W")]
         # chunksize=-1 is not drawn: dask.local.fire_tasks divides by zero with it when nothing is
         # ready (a Dask defect unrelated to pulsarbat)
         self.chunksize = [1, 2, 6][tape.weighted([3, 1, 1], f"{label}.chunksize")]
@@ -115,8 +115,8 @@ class SchedPlan:
         self.reorder = [0, 2, 4, 8][tape.draw(4, f"{label}.reorder")]
         # pre-emptive sub-mode: in-flight tasks run in parked threads and interleave at every
         # line of pulsarbat code they execute (as on the threaded scheduler)
-        self.preempt = self.mode == "dask-core" and self.W > 1 and tape.chance(1, 3, f"{label}.preempt")
-        self.preempt_switch = [1, 4, 8][tape.draw(3, f"{label}.pswitch")] if self.preempt else 0
+        self.preempt = self.mode == "dask-core" and self.W > 1 and tape.chance(2, 3, f"{label}.preempt")
+        self.preempt_switch = [4, 2, 8][tape.draw(3, f"{label}.pswitch")] if self.preempt else 0
         self.fault = "none"
         self.fault_at = 0
         if allow_faults:
@@ -205,7 +205,7 @@ class SimScheduler:
         psched = None
         # only worth it when some task executes pulsarbat code (chirps, reads): all other
         # tasks are NumPy/SciPy/Dask kernels without pre-emption points
-        has_lib_tasks = any(("_transfer_function" in str(k)) or ("_read_array" in str(k)) for k in dsk)
+        has_lib_tasks = any(("transfer_function" in str(k)) or ("read_array" in str(k)) for k in dsk)
         if plan.preempt and has_lib_tasks and schedmod.ACTIVE["sched"] is None:
             psched = schedmod.Sched(ctx, switch_eighths=plan.preempt_switch, trace_files=("",),
                                     tool_id=5, step_mode=True)
